@@ -83,6 +83,19 @@ pub fn judge(scn: &Scenario, res: &ExecResult, _b: Option<&ExecResult>) -> Vec<V
     if n < 60 {
         return out;
     }
+    // the same against the lead measured from the two sessions' frame counters instead of the
+    // session's own estimate: a leader that is >= 4 frames ahead for the last 150 rounds (so that
+    // 'about' still means >= 3) must have been told at least once in that time
+    if n >= 200 {
+        for (ni, sign) in [(0usize, 1i32), (1, -1)] {
+            let led = (n - 150..n).all(|i| sign * (a.calls[i].cur - b.calls[i].cur) >= 4);
+            let from_round = res.nodes[ni].calls[n - 150].round;
+            let told = res.nodes[ni].events.iter().any(|e| matches!(e.2, Ev::Wait { .. }) && e.0 >= from_round);
+            if led && !told {
+                out.push(v("wait-recommendation-missing", ni, 0, format!("session {ni} was at least 4 frames ahead of the other one during the last 150 rounds but no WaitRecommendation was raised")));
+            }
+        }
+    }
     let tail = 30;
     let lead: Vec<i32> = (n - tail..n).map(|i| a.calls[i].cur - b.calls[i].cur).collect();
     let steady = lead.iter().max() == lead.iter().min();
@@ -117,11 +130,25 @@ pub fn judge(scn: &Scenario, res: &ExecResult, _b: Option<&ExecResult>) -> Vec<V
             out.push(v("ping-wrong", ni, c.round, format!("network_stats().ping = {ping} ms; the link's round trip is {lat_ms:.1} ms (one tick = {round_ms:.1} ms)")));
         }
     }
-    let (ca, cb) = (&a.calls[n - 1], &b.calls[n - 1]);
-    if ca.stats.0 == R_OK && cb.stats.0 == R_OK {
-        if (ca.stats.2 - cb.stats.3).abs() > 1 || (cb.stats.2 - ca.stats.3).abs() > 1 {
-            out.push(v("frames-behind-mismatch", 0, ca.round, format!(
-                "session 0 reports local/remote frames behind = {}/{}, session 1 reports {}/{}: one side's local figure must be the other side's remote figure", ca.stats.2, ca.stats.3, cb.stats.2, cb.stats.3)));
+    // the remote figure is the other side's local figure as carried by its latest quality report
+    // (one every 200 ms): it must be a value the other side's local figure actually took within
+    // the last report interval + one-way latency + one round
+    let back = (200.0 / round_ms).ceil() as usize + scn.latency.max(0) as usize + 2;
+    for (x, y, xi) in [(a, b, 0usize), (b, a, 1)] {
+        let cx = &x.calls[n - 1];
+        if cx.stats.0 != R_OK {
+            continue;
+        }
+        let lo = n.saturating_sub(1 + back);
+        let window: Vec<i32> = y.calls[lo..n].iter().filter(|c| c.stats.0 == R_OK).map(|c| c.stats.2).collect();
+        if !window.is_empty() && !window.contains(&cx.stats.3) {
+            out.push(v("frames-behind-mismatch", xi, cx.round, format!(
+                "session {xi} reports remote frames behind = {}; the other session's local figure took the values {:?} during the last {back} rounds (one quality-report interval plus the latency): one side's local figure must be what the other reports as remote", cx.stats.3, {
+                    let mut w = window.clone();
+                    w.sort_unstable();
+                    w.dedup();
+                    w
+                })));
         }
     }
     out
@@ -187,6 +214,30 @@ pub fn c15() -> i32 {
                 s.probe = 12 * fps as i32;
                 s.checks = CK_C02 | CK_STATS;
                 scns.push(s);
+            }
+        }
+    }
+    // lockstep sessions (window 0): the input delay is what lets one peer run ahead
+    for &fps in &fpss {
+        for d in [4usize, 6, 9] {
+            for lat in [0, 1] {
+                for lead in -6i32..=6 {
+                    if !t && lead.abs() % 2 == 1 && lead.abs() != 3 {
+                        continue;
+                    }
+                    let mut s = base_scn("c15-lockstep", "1+1", 0, d, false, Pred::RepeatLast, Program::Changing, lat);
+                    s.fps = fps;
+                    s.round_us = 1_000_000 / fps as u64;
+                    let follower = if lead >= 0 { 1 } else { 0 };
+                    for i in 0..lead.abs() {
+                        s.scripted_stalls.push((follower, 2 + i));
+                    }
+                    s.name = format!("{} fps={fps} lead={lead} pattern=0", s.name);
+                    s.horizon = 0;
+                    s.probe = 12 * fps as i32;
+                    s.checks = CK_C02 | CK_STATS;
+                    scns.push(s);
+                }
             }
         }
     }
